@@ -674,7 +674,8 @@ func runSchedImpl(d schedCase, dir string) schedObs {
 	select {
 	case err := <-done:
 		o.result = resTok(verifhook.ErrClass(err))
-	case <-time.After(map[bool]time.Duration{true: 3 * time.Second, false: 45 * time.Second}[d.Hang]):
+	// (the 1000-deep recursion takes ~12 s on an idle machine and has been seen to take 45 s under a load average of 70)
+	case <-time.After(map[bool]time.Duration{true: 3 * time.Second, false: 90 * time.Second}[d.Hang]):
 		o.hang = true
 		o.result = "hang"
 	}
@@ -1890,6 +1891,9 @@ func runSched(c *Ctx) {
 		c.decorate(&d)
 		if i%20 == 16 {
 			d.Inc = i%40 == 16 // every other group lives in an included file, under names sharing their last segment
+		}
+		if cyclic {
+			d.Inc = false // 1000 nested calls: keep the case as cheap as it can be
 		}
 		for s := 0; s < sched && !(cyclic && s > 0); s++ {
 			d.Seed = c.Rng.Int63()
